@@ -58,6 +58,7 @@ theorem cachedOk_split : ∀ (pre : List Ev) (st : Store) (b : Blk) (post : List
     | reqOne x => simp only [List.cons_append, cachedOk] at h; simpa [replay] using ih _ b post h
     | reqMany x => simp only [List.cons_append, cachedOk] at h; simpa [replay] using ih _ b post h
     | notify x => simp only [List.cons_append, cachedOk] at h; simpa [replay] using ih _ b post h
+    | putFail x => simp only [List.cons_append, cachedOk] at h; simpa [replay] using ih _ b post h
 
 
 theorem cachedOk_append : ∀ (a : List Ev) (st : Store) (b : List Ev),
@@ -97,43 +98,47 @@ theorem get_none_has {st : Store} {k : Key} (h : st.get k = none) : st.has k = f
 
 /-! ### the receive loop -/
 
-theorem fetchLoop_cached (fixed : Bool) (misses : List Cid) : ∀ (bs : List Blk) (st : Store) (nf : Option Nat),
-    cachedOk st (fetchLoop fixed misses st nf bs).2 = true ∧ reqOk st (fetchLoop fixed misses st nf bs).2 = true ∧
-    replay st (fetchLoop fixed misses st nf bs).2 = (fetchLoop fixed misses st nf bs).1 := by
+theorem fetchLoop_cached (fixed : Bool) (misses : List Cid) : ∀ (bs : List Blk) (st : Store) (nf pf : Option Nat),
+    cachedOk st (fetchLoop fixed misses st nf pf bs).2 = true ∧ reqOk st (fetchLoop fixed misses st nf pf bs).2 = true ∧
+    replay st (fetchLoop fixed misses st nf pf bs).2 = (fetchLoop fixed misses st nf pf bs).1 := by
   intro bs
   induction bs with
-  | nil => intro st nf; simp [fetchLoop, cachedOk, reqOk, replay]
+  | nil => intro st nf pf; simp [fetchLoop, cachedOk, reqOk, replay]
   | cons b r ih =>
-    intro st nf
+    intro st nf pf
     unfold fetchLoop
     split
-    · exact ih st nf
+    · exact ih st nf pf
     · split
       · simp [cachedOk, reqOk, replay]
-      · have := ih (st.put b.1.mh b.2) (nf.map (· - 1))
-        simp [cachedOk, reqOk, replay, has_put_self, this]
+      · split
+        · simp [cachedOk, reqOk, replay]
+        · have := ih (st.put b.1.mh b.2) (nf.map (· - 1)) (pf.map (· - 1))
+          simp [cachedOk, reqOk, replay, has_put_self, this]
 
-theorem fetchLoop_emitted (fixed : Bool) (misses : List Cid) : ∀ (bs : List Blk) (st : Store) (nf : Option Nat),
-    ∀ b ∈ emitted (fetchLoop fixed misses st nf bs).2, b ∈ bs ∧ (fixed = true → b.1 ∈ misses) := by
+theorem fetchLoop_emitted (fixed : Bool) (misses : List Cid) : ∀ (bs : List Blk) (st : Store) (nf pf : Option Nat),
+    ∀ b ∈ emitted (fetchLoop fixed misses st nf pf bs).2, b ∈ bs ∧ (fixed = true → b.1 ∈ misses) := by
   intro bs
   induction bs with
-  | nil => intro st nf b hb; simp [fetchLoop, emitted] at hb
+  | nil => intro st nf pf b hb; simp [fetchLoop, emitted] at hb
   | cons x r ih =>
-    intro st nf b hb
+    intro st nf pf b hb
     unfold fetchLoop at hb
     split at hb
-    · have := ih st nf b hb
+    · have := ih st nf pf b hb
       exact ⟨by simp [this.1], this.2⟩
     · rename_i hdrop
       have hx : fixed = true → x.1 ∈ misses := by
         intro hf; subst hf; simpa using hdrop
       split at hb
       · simp [emitted] at hb
-      · simp [emitted] at hb
-        rcases hb with hb | hb
-        · subst hb; exact ⟨by simp, hx⟩
-        · have := ih _ _ b hb
-          exact ⟨by simp [this.1], this.2⟩
+      · split at hb
+        · simp [emitted] at hb
+        · simp [emitted] at hb
+          rcases hb with hb | hb
+          · subst hb; exact ⟨by simp, hx⟩
+          · have := ih _ _ _ b hb
+            exact ⟨by simp [this.1], this.2⟩
 
 theorem storeH_put {H : Key → Data → Prop} {st : Store} {k : Key} {d : Data} (hs : storeH H st) (h : H k d) :
     storeH H (st.put k d) := by
@@ -143,25 +148,27 @@ theorem storeH_put {H : Key → Data → Prop} {st : Store} {k : Key} {d : Data}
   · exact h
 
 theorem fetchLoop_storeH (H : Key → Data → Prop) (fixed : Bool) (misses : List Cid) :
-    ∀ (bs : List Blk) (st : Store) (nf : Option Nat), storeH H st → (∀ b ∈ bs, H b.1.mh b.2) →
-      storeH H (fetchLoop fixed misses st nf bs).1 := by
+    ∀ (bs : List Blk) (st : Store) (nf pf : Option Nat), storeH H st → (∀ b ∈ bs, H b.1.mh b.2) →
+      storeH H (fetchLoop fixed misses st nf pf bs).1 := by
   intro bs
   induction bs with
-  | nil => intro st nf hs _; simpa [fetchLoop] using hs
+  | nil => intro st nf pf hs _; simpa [fetchLoop] using hs
   | cons x r ih =>
-    intro st nf hs hb
+    intro st nf pf hs hb
     have hr : ∀ b ∈ r, H b.1.mh b.2 := fun b hb' => hb b (by simp [hb'])
     have hput := storeH_put (k := x.1.mh) (d := x.2) hs (hb x (by simp))
     unfold fetchLoop
     split
-    · exact ih st nf hs hr
+    · exact ih st nf pf hs hr
     · split
-      · exact hput
-      · exact ih _ _ hput hr
+      · exact hs
+      · split
+        · exact hput
+        · exact ih _ _ _ hput hr
 
 /-! ### getBlock / getBlocks -/
 
-theorem getBlock_trace (cfg : Cfg) (st : Store) (c : Cid) (ans : Option Blk) (nOk : Bool) :
+theorem getBlock_trace_none (cfg : Cfg) (st : Store) (c : Cid) (ans : Option Blk) (nOk : Bool) :
     cachedOk st (getBlock cfg st c ans nOk).2.2 = true ∧ reqOk st (getBlock cfg st c ans nOk).2.2 = true := by
   unfold getBlock
   cases hv : validate cfg.al c.code c.len <;> simp [cachedOk, reqOk]
@@ -180,7 +187,7 @@ theorem getBlock_trace (cfg : Cfg) (st : Store) (c : Cid) (ans : Option Blk) (nO
         · simp [cachedOk, reqOk, hn]
         · cases nOk <;> simp [cachedOk, reqOk, hn, has_put_self]
 
-theorem getBlock_requested (cfg : Cfg) (hfix : cfg.fixed = true) (st : Store) (c : Cid) (ans : Option Blk) (nOk : Bool) :
+theorem getBlock_requested_none (cfg : Cfg) (hfix : cfg.fixed = true) (st : Store) (c : Cid) (ans : Option Blk) (nOk : Bool) :
     ∀ b ∈ emitted (getBlock cfg st c ans nOk).2.2, b.1 = c ∧ (getBlock cfg st c ans nOk).2.1 = .blk b := by
   unfold getBlock
   cases hv : validate cfg.al c.code c.len <;> simp [emitted]
@@ -200,7 +207,7 @@ theorem getBlock_requested (cfg : Cfg) (hfix : cfg.fixed = true) (st : Store) (c
           exact ⟨hne, rfl⟩
         · simp [hne, emitted]
 
-theorem getBlock_hash (H : Key → Data → Prop) (cfg : Cfg) (st : Store) (c : Cid) (ans : Option Blk) (nOk : Bool)
+theorem getBlock_hash_none (H : Key → Data → Prop) (cfg : Cfg) (st : Store) (c : Cid) (ans : Option Blk) (nOk : Bool)
     (hs : storeH H st) (hans : ∀ b, ans = some b → H b.1.mh b.2) :
     (∀ b ∈ emitted (getBlock cfg st c ans nOk).2.2, H b.1.mh b.2) ∧ storeH H (getBlock cfg st c ans nOk).1 := by
   unfold getBlock
@@ -222,8 +229,8 @@ theorem getBlock_hash (H : Key → Data → Prop) (cfg : Cfg) (st : Store) (c : 
           · exact storeH_put hs hb
           · exact ⟨by rintro a b rfl; exact hb, storeH_put hs hb⟩
 
-theorem getBlocks_trace (cfg : Cfg) (st : Store) (ks : List Cid) (ans : Option (List Blk)) (nf : Option Nat) :
-    cachedOk st (getBlocks cfg st ks ans nf).2 = true ∧ reqOk st (getBlocks cfg st ks ans nf).2 = true := by
+theorem getBlocks_trace (cfg : Cfg) (st : Store) (ks : List Cid) (ans : Option (List Blk)) (nf pf : Option Nat) :
+    cachedOk st (getBlocks cfg st ks ans nf pf).2 = true ∧ reqOk st (getBlocks cfg st ks ans nf pf).2 = true := by
   unfold getBlocks
   have hhit : cachedOk st ((splitLocal st (filterKeys cfg.al ks)).1.map Ev.emit) = true ∧
       reqOk st ((splitLocal st (filterKeys cfg.al ks)).1.map Ev.emit) = true := by
@@ -250,14 +257,14 @@ theorem getBlocks_trace (cfg : Cfg) (st : Store) (ks : List Cid) (ans : Option (
       rw [cachedOk_append, reqOk_append, replay_map_emit]
       simp [hhit, cachedOk, reqOk, hmiss]
     | some bs =>
-      have hf := fetchLoop_cached cfg.fixed (splitLocal st (filterKeys cfg.al ks)).2 bs st nf
+      have hf := fetchLoop_cached cfg.fixed (splitLocal st (filterKeys cfg.al ks)).2 bs st nf pf
       simp only [List.append_assoc]
       rw [cachedOk_append, reqOk_append, replay_map_emit]
       simp [hhit, cachedOk, reqOk, hmiss, hf]
 
 theorem getBlocks_requested (cfg : Cfg) (hfix : cfg.fixed = true) (st : Store) (ks : List Cid)
-    (ans : Option (List Blk)) (nf : Option Nat) :
-    ∀ b ∈ emitted (getBlocks cfg st ks ans nf).2, b.1 ∈ ks ∧ valid cfg.al b.1 = true := by
+    (ans : Option (List Blk)) (nf pf : Option Nat) :
+    ∀ b ∈ emitted (getBlocks cfg st ks ans nf pf).2, b.1 ∈ ks ∧ valid cfg.al b.1 = true := by
   unfold getBlocks
   have hh : ∀ b ∈ (splitLocal st (filterKeys cfg.al ks)).1, b.1 ∈ ks ∧ valid cfg.al b.1 = true :=
     fun b hb => mem_filterKeys (mem_splitLocal_hits hb).1
@@ -276,12 +283,12 @@ theorem getBlocks_requested (cfg : Cfg) (hfix : cfg.fixed = true) (st : Store) (
       simp only [emitted_append, emitted_map_emit, emitted, List.append_nil, List.mem_append] at hb
       rcases hb with hb | hb
       · exact hh b hb
-      · exact hm _ ((fetchLoop_emitted cfg.fixed _ bs st nf b hb).2 hfix)
+      · exact hm _ ((fetchLoop_emitted cfg.fixed _ bs st nf pf b hb).2 hfix)
 
 theorem getBlocks_hash (H : Key → Data → Prop) (cfg : Cfg) (st : Store) (ks : List Cid)
-    (ans : Option (List Blk)) (nf : Option Nat) (hs : storeH H st)
+    (ans : Option (List Blk)) (nf pf : Option Nat) (hs : storeH H st)
     (hans : ∀ bs, ans = some bs → ∀ b ∈ bs, H b.1.mh b.2) :
-    (∀ b ∈ emitted (getBlocks cfg st ks ans nf).2, H b.1.mh b.2) ∧ storeH H (getBlocks cfg st ks ans nf).1 := by
+    (∀ b ∈ emitted (getBlocks cfg st ks ans nf pf).2, H b.1.mh b.2) ∧ storeH H (getBlocks cfg st ks ans nf pf).1 := by
   unfold getBlocks
   have hh : ∀ b ∈ (splitLocal st (filterKeys cfg.al ks)).1, H b.1.mh b.2 :=
     fun b hb => hs _ _ (mem_splitLocal_hits hb).2
@@ -296,12 +303,12 @@ theorem getBlocks_hash (H : Key → Data → Prop) (cfg : Cfg) (st : Store) (ks 
       exact hh b hb
     | some bs =>
       have hb' := hans bs rfl
-      refine ⟨?_, fetchLoop_storeH H _ _ bs st nf hs hb'⟩
+      refine ⟨?_, fetchLoop_storeH H _ _ bs st nf pf hs hb'⟩
       intro b hb
       simp only [emitted_append, emitted_map_emit, emitted, List.append_nil, List.mem_append] at hb
       rcases hb with hb | hb
       · exact hh b hb
-      · exact hb' b (fetchLoop_emitted cfg.fixed _ bs st nf b hb).1
+      · exact hb' b (fetchLoop_emitted cfg.fixed _ bs st nf pf b hb).1
 end C05
 
 namespace C05
@@ -325,6 +332,7 @@ theorem replay_has_mono : ∀ (evs : List Ev) (st : Store) (k : Key), st.has k =
     | reqOne c => exact ih st k h
     | reqMany cs => exact ih st k h
     | notify bs => exact ih st k h
+    | putFail b => exact ih st k h
 
 theorem mem_emitted_split : ∀ {evs : List Ev} {b : Blk}, b ∈ emitted evs → ∃ pre post, evs = pre ++ .emit b :: post := by
   intro evs
@@ -342,9 +350,10 @@ theorem mem_emitted_split : ∀ {evs : List Ev} {b : Blk}, b ∈ emitted evs →
     | reqOne x => obtain ⟨pre, post, hp⟩ := ih (by simpa [emitted] using h); exact ⟨.reqOne x :: pre, post, by simp [hp]⟩
     | reqMany x => obtain ⟨pre, post, hp⟩ := ih (by simpa [emitted] using h); exact ⟨.reqMany x :: pre, post, by simp [hp]⟩
     | notify x => obtain ⟨pre, post, hp⟩ := ih (by simpa [emitted] using h); exact ⟨.notify x :: pre, post, by simp [hp]⟩
+    | putFail x => obtain ⟨pre, post, hp⟩ := ih (by simpa [emitted] using h); exact ⟨.putFail x :: pre, post, by simp [hp]⟩
 
 /-- the block GetBlock returns is the block it emitted -/
-theorem getBlock_result_emitted (cfg : Cfg) (st : Store) (c : Cid) (ans : Option Blk) (nOk : Bool) (b : Blk)
+theorem getBlock_result_emitted_none (cfg : Cfg) (st : Store) (c : Cid) (ans : Option Blk) (nOk : Bool) (b : Blk)
     (h : (getBlock cfg st c ans nOk).2.1 = .blk b) : b ∈ emitted (getBlock cfg st c ans nOk).2.2 := by
   unfold getBlock at h ⊢
   cases hv : validate cfg.al c.code c.len <;> simp [hv] at h ⊢
@@ -366,5 +375,60 @@ theorem getBlock_result_emitted (cfg : Cfg) (st : Store) (c : Cid) (ans : Option
           simp only [hm, Bool.false_eq_true, if_false]
           cases nOk <;> simp at h ⊢
           simp [emitted, h]
+
+/-! ### getBlock with a failing blockstore write -/
+
+/-- a failing Put either is never reached (same as without failure) or ends the call: error, nothing handed out -/
+theorem getBlock_fail (cfg : Cfg) (st : Store) (c : Cid) (ans : Option Blk) (nOk : Bool) :
+    getBlock cfg st c ans nOk (some 0) = getBlock cfg st c ans nOk none ∨
+    ∃ blk, getBlock cfg st c ans nOk (some 0) = (st, .storeErr, [.reqOne c, .putFail blk]) ∧ st.get c.mh = none := by
+  unfold getBlock
+  cases hv : validate cfg.al c.code c.len <;> simp
+  cases hg : st.get c.mh with
+  | some d => simp
+  | none =>
+    simp only []
+    split
+    · simp
+    · cases ans with
+      | none => simp
+      | some blk =>
+        simp only []
+        split
+        · simp
+        · right; exact ⟨⟨blk.1, blk.2, rfl⟩, trivial⟩
+
+theorem getBlock_cases (cfg : Cfg) (st : Store) (c : Cid) (ans : Option Blk) (nOk : Bool) (pf : Option Nat) :
+    getBlock cfg st c ans nOk pf = getBlock cfg st c ans nOk none ∨
+    ∃ blk, getBlock cfg st c ans nOk pf = (st, .storeErr, [.reqOne c, .putFail blk]) ∧ st.get c.mh = none := by
+  by_cases h : pf = some 0
+  · subst h; exact getBlock_fail cfg st c ans nOk
+  · left; exact getBlock_pf cfg st c ans nOk h
+
+theorem getBlock_trace (cfg : Cfg) (st : Store) (c : Cid) (ans : Option Blk) (nOk : Bool) (pf : Option Nat) :
+    cachedOk st (getBlock cfg st c ans nOk pf).2.2 = true ∧ reqOk st (getBlock cfg st c ans nOk pf).2.2 = true := by
+  rcases getBlock_cases cfg st c ans nOk pf with h | ⟨blk, h, hg⟩
+  · rw [h]; exact getBlock_trace_none cfg st c ans nOk
+  · rw [h]; simp [cachedOk, reqOk, get_none_has hg]
+
+theorem getBlock_requested (cfg : Cfg) (hfix : cfg.fixed = true) (st : Store) (c : Cid) (ans : Option Blk) (nOk : Bool)
+    (pf : Option Nat) :
+    ∀ b ∈ emitted (getBlock cfg st c ans nOk pf).2.2, b.1 = c ∧ (getBlock cfg st c ans nOk pf).2.1 = .blk b := by
+  rcases getBlock_cases cfg st c ans nOk pf with h | ⟨blk, h, _⟩
+  · rw [h]; exact getBlock_requested_none cfg hfix st c ans nOk
+  · rw [h]; simp [emitted]
+
+theorem getBlock_hash (H : Key → Data → Prop) (cfg : Cfg) (st : Store) (c : Cid) (ans : Option Blk) (nOk : Bool)
+    (pf : Option Nat) (hs : storeH H st) (hans : ∀ b, ans = some b → H b.1.mh b.2) :
+    (∀ b ∈ emitted (getBlock cfg st c ans nOk pf).2.2, H b.1.mh b.2) ∧ storeH H (getBlock cfg st c ans nOk pf).1 := by
+  rcases getBlock_cases cfg st c ans nOk pf with h | ⟨blk, h, _⟩
+  · rw [h]; exact getBlock_hash_none H cfg st c ans nOk hs hans
+  · rw [h]; simp [emitted]; exact hs
+
+theorem getBlock_result_emitted (cfg : Cfg) (st : Store) (c : Cid) (ans : Option Blk) (nOk : Bool) (pf : Option Nat)
+    (b : Blk) (h : (getBlock cfg st c ans nOk pf).2.1 = .blk b) : b ∈ emitted (getBlock cfg st c ans nOk pf).2.2 := by
+  rcases getBlock_cases cfg st c ans nOk pf with h' | ⟨blk, h', _⟩
+  · rw [h'] at h ⊢; exact getBlock_result_emitted_none cfg st c ans nOk b h
+  · rw [h'] at h; simp at h
 
 end C05
